@@ -191,7 +191,17 @@ def run_groups(repo, verif, groups, workdir, tier, jobs=None):
             rec['status'] = 'undecided'
             R.undecided.append('harness %s: no verdict (timeout/memory cap)' % name)
         elif r['status'] == 'failure':
+            ign = h.get('ignore_checks', [])
             real = [f for f in r['failed_checks'] if 'unwinding assertion' not in f]
+            # CBMC property classes that are not Rust panics (e.g. IEEE NaN results) can be declared benign
+            real = ['; '.join(x for x in [y.strip() for y in f.split(';')] if not any(x.startswith(i) for i in ign)) for f in real]
+            real = [f for f in real if f]
+            if not real and not r['unwind']:
+                rec['status'] = 'success'
+                rec['failed_checks'] = 0
+                rec['note'] = 'only checks declared benign failed: %s' % ign
+                R.harnesses.append(rec)
+                continue
             if r['unwind'] and not real:
                 rec['status'] = 'undecided'
                 R.undecided.append('harness %s: unwinding assertion failed (bound too small for this code)' % name)
